@@ -73,6 +73,9 @@ def cases(tier, seed):
             for tgt in with_ones(f, rng, allv=(fi == 0 and si % 4 == 0)):
                 i = len(cs)
                 cs.append({'gen': 'reshape_t', 'N': N, 'target': tgt, 'eps': EPS[i % 6], 'vals': ['gauss', 'decay', 'int', 'graded', 'tiny', 'decay', 'huge'][i % 7], 'dtype': DTS[(i // 4) % 4]})
+    # splits that create a bond of exact rank > 100 (a rank cap that is not the caller's would show)
+    for (N, tgt) in ([[16384], [128, 128]], [[2, 14400], [2, 120, 120]]) + ([[[3, 12100, 2], [3, 110, 110, 2]]] if T else []):
+        cs.append({'gen': 'reshape_t', 'N': N, 'target': tgt, 'eps': None, 'vals': 'gauss', 'dtype': 'f64', 'fullrank': True})
     # reshape operators
     for i in range(300 if not T else 6000):
         d = rng.randint(1, 3)
@@ -134,6 +137,8 @@ def build(case, g, N, M=None):
     d = len(N)
     rr = random.Random(case['seed'])
     R = [1] + [rr.randint(1, 4) for _ in range(d - 1)] + [1]
+    if case.get('fullrank'):
+        R = [1] + [2] * (d - 1) + [1]
     vals = case['vals']
     if vals == 'decay':
         # cores whose singular spectra decay geometrically: truncation at loose eps is really active
